@@ -535,6 +535,14 @@ def NEST(tier='quick'):
                 yield T, {'h': 1, 'f': fv}
                 yield T, {'h': 1, 'f': fv, 'g': vals[-1]}
 
+    # DEFAULT component of record type holding OPTIONAL constructed members
+    inner_rec = ('SEQ', (('a', INT, 'R', None), ('l', ('SEQOF', INT), 'O', None), ('c', ('CHOICE', (('x', I(0, INT)), ('y', I(1, BOOL)))), 'O', None)))
+    for kind in ('SEQ', 'SET'):
+        T = (kind, (('h', I(30, INT), 'R', None), ('n', I(29, inner_rec), 'D', M.freeze({'a': 1}))))
+        assert M.legal(T)
+        for nv in ({'a': 1}, {'a': 2}, {'a': 1, 'l': []}, {'a': 1, 'l': [5]}, {'a': 1, 'c': ('x', 0)}):
+            yield T, {'h': 7, 'n': nv}
+
     # DEFAULT component of CHOICE type whose alternatives can hold equal contents
     chdef = ('CHOICE', (('a', I(0, INT)), ('b', I(1, INT)), ('s', I(2, OCTS))))
     for kind in ('SEQ', 'SET'):
